@@ -100,15 +100,15 @@ theorem pot_run {Sym : Type} {c : Cfg} : ∀ (msg : List (MStep Sym)) (st : St) 
 /-- **C12**: after encoding any message from an empty encoder,
     `2^num_bits · ∏ p_i 2^k_i ≤ 2^(2W) · ∏ 2^P_i (2^k_i + 1)` and `num_words ≤ n + 2`. -/
 theorem size_bound {Sym : Type} {c : Cfg} (hc : RValid c) (msg : List (MStep Sym))
-    (hv : ∀ x ∈ msg, x.Valid c) :
+    (hn : MsgFits c msg.length) (hv : ∀ x ∈ msg, x.Valid c) :
     ∃ e nw, encodeMsg c (Encoder.empty c) msg = .ok e ∧
       numWords c e = .ok nw ∧ numBits c e = .ok (c.W * nw) ∧
       nw ≤ msg.length + 2 ∧
       2^(c.W * nw) * sizeA c (msg.map MStep.spec)
         ≤ 2^(2 * c.W) * sizeB c (msg.map MStep.spec) := by
-  obtain ⟨e, he, hI, hws⟩ := words_eq_spec hc msg hv
-  have hnw := numWords_eq hc hI
-  have hnb := numBits_eq hc hI
+  obtain ⟨e, he, hI, hf, hws⟩ := words_eq_spec hc msg hn hv
+  have hnw := numWords_eq hc hI hf
+  have hnb := numBits_eq hc hI hf
   rw [intoCompressed_eq hc hI] at hws
   have hlen : (e.bulk ++ sealP c e).length
       = (RangeSpec.words c.W c.S (msg.map MStep.spec)).length := by
